@@ -256,7 +256,7 @@ def check(ctx):
                 'non-trivial = a run appending to an existing group with at least two file records; distinct by model request',
         'samples': [dc.model_request(pub[0])] if pub else [],
         'correspondence': st, 'distribution': dc.stats(steps, pub),
-        'disagreements_checked': st['cases'], 'racing_writer_runs': races, 'same_second_histories': same, 'member_and_restore_scenarios': memb,
+        'disagreements_checked': st['cases'], 'racing_writer_runs': races, 'same_second_histories': same, 'member_and_restore_scenarios': memb, 'future_group_scenarios': fut,
     })
     ctx.assumptions += ['every content change also changes (device, inode, mtime) — the generator gives each written file a fresh mtime',
                         'SHA-512 collision-free on the generated contents']
